@@ -187,6 +187,16 @@ def handleOther (toks : List String) : String :=
           | .ok raw => showPts (clusterCentres raw (Circ.cisDeg rt) (px, py))
           | .error e => "error:" ++ toString e
       | _, _, _, _, _ => "bad-op"
+  | ["clusterseq", spec] =>
+      -- hexagonal clusters `n:R:rot:px:py;…` built one after the other THROUGH the class-level cache
+      match (fields spec ";").mapM (fun t => match (t.splitOn ":") with
+          | [n, r, rt, px, py] => do
+              let n ← n.toNat?; let r ← parseFloat? r; let rt ← parseFloat? rt
+              let px ← parseFloat? px; let py ← parseFloat? py
+              some (n, r, (Circ.cisDeg rt : Pt Float), ((px, py) : Pt Float))
+          | _ => none) with
+      | some reqs => showList showPts (clusterSeq ([] : NormCache Float) reqs) "|"
+      | none => "bad-op"
   | ["rotpts", ang, pts] => match parseFloat? ang, parsePts? pts with
       | some ang, some pts => if pts.isEmpty then "-" else showPts (pts.map (rot (Circ.cisDeg ang)))
       | _, _ => "bad-op"
